@@ -763,7 +763,12 @@ func (s *scen) ephemeralMaturity() {
 			s.b.Eval(1)
 			s.b.Distinct("ephemeral-maturity", s.fam, child < n.HardforkV2.EphemeralOutputHeight, child == n.HardforkV2.EphemeralOutputHeight, claimed)
 			if child < n.HardforkV2.EphemeralOutputHeight {
-				s.b.Count(fmt.Sprintf("observed:legacy-window-in-block-spend-of-immature-claim-accepted=%v", verr == nil), 1)
+				// below the ephemeral-output height the claimed maturity of an in-block parent is not cross-checked; the
+				// statement quantifies over all hardfork heights without exception: judged under a key of its own
+				if verr == nil && claimed == 0 {
+					s.b.Violate("C08/early/immature-output-spent-in-its-own-block/below-the-ephemeral-output-height", fmt.Sprintf("at child height %d, below the ephemeral-output height %d (maturity delay %d), a siafund claim output created in the block and maturing at %d was spent in the same block claiming maturity height 0", child, n.HardforkV2.EphemeralOutputHeight, n.MaturityDelay, child+n.MaturityDelay), map[string]any{"child": child, "fix_height": n.HardforkV2.EphemeralOutputHeight})
+				}
+				s.b.Count("legacy_window_in_block_spends_of_immature_claims", 1)
 				continue
 			}
 			if verr == nil {
